@@ -8,7 +8,7 @@ from vk.build import build
 from vk.props.c03 import XOR_RICH
 
 ID = 'C04'
-RULE = ('As C03 (netlists, delays >= 0, capacities incl. overflowing ones, multi-transition inputs) with all times/delays on a dyadic grid (exact in '
+RULE = ('Part stress: the same wide-gate stress netlists as in C13. Part window: As C03 (netlists, delays >= 0, capacities incl. overflowing ones, multi-transition inputs) with all times/delays on a dyadic grid (exact in '
         'float32). Oracles: (a) own static-timing window per line and lane (earliest/latest input transition plus min/max line delays, walked over '
         'the circuit graph): every finite timestamp lies inside, lines that cannot switch have none, s[4]/s[5] inside; (b) all input transitions '
         'shifted by a dyadic amount => every timestamp shifted by exactly that amount, same entry counts and overflow marks; (c) times and delays '
@@ -184,4 +184,15 @@ def prop(case):
     return Obs(busy and multi_switch, labels, checks=3 * len(b.c.lines) * lanes)
 
 
-PARTS = [Part('window', prop, strategy=cases, quick=(8, 350), thorough=(16, 8000))]
+@st.composite
+def stress_cases(draw, tier):
+    """the wide-gate stress netlists of C13 (minimum capacity, many close edges, very unequal pin delays) through the window / shift / scale oracles"""
+    from vk.props.c13 import stress_cases as base
+    c = draw(base(tier))
+    return dict(nl=c['nl'], lanes=c['lanes'], waves=c['waves'], pre=None, dpool=c['dpool'], caps=draw(st.sampled_from([4, 4, 8])), f64=False,
+                strip_forks=c['strip_forks'], pol_indep=False, c_reuse=False, shift=draw(st.integers(-64, 512)), scale=draw(st.integers(-3, 3)),
+                cuda=False, nds=1, gsel=0, mix=0)
+
+
+PARTS = [Part('stress', prop, strategy=stress_cases, quick=(4, 500), thorough=(16, 20000)),
+         Part('window', prop, strategy=cases, quick=(8, 350), thorough=(16, 8000))]
